@@ -2,6 +2,7 @@ import Mouette.Model.Operators
 import Mouette.Lemmas.OpLemmas
 import Mouette.Lemmas.MassEdges
 import Mouette.Lemmas.EdgeIncidence
+import Mouette.Lemmas.OpPerm
 import Mouette.Generated.C08Idx
 /-
 C08 — discrete differential operators satisfy their defining identities.
@@ -407,6 +408,22 @@ theorem lapLoop_bridge :
     ∀ t : Nat, ∀ f : F3, faceLapS t f =
       edgeBlockS f.1 f.2.1 (3 * t + 2) ++ edgeBlockS f.2.1 f.2.2 (3 * t + 0) ++ edgeBlockS f.2.2 f.1 (3 * t + 1) := by
   refine ⟨by decide, fun t f => rfl⟩
+
+/-- the four coefficient writes per weighted edge re-extracted from the scalar branch of `laplacian` are, UP TO THEIR ORDER, the
+model's edge block `(i,i,+) (j,j,+) (i,j,−) (j,i,−)` -/
+theorem lapWrites_perm :
+    Mouette.Generated.C08.lapWrites.Perm [(0, 0, 1), (1, 1, 1), (0, 1, -1), (1, 0, -1)] := by decide
+
+/-- hence the matrix they denote is the model's (so `lap_eq_stiffness`, `lap_symmetric`, `lap_row_sums_zero` speak about the
+source's writes); a reordering of the writes in the source keeps this bridge provable -/
+theorem lapWrites_bridge (w : Nat → Rat) (i j c x y : Nat) :
+    toFun (eval w (Mouette.Generated.C08.lapWrites.map
+      (fun t => (⟨if t.1 = 0 then i else j, if t.2.1 = 0 then i else j, t.2.2, c⟩ : SEntry)))) x y
+      = toFun (eval w (edgeBlockS i j c)) x y := by
+  apply toFun_perm
+  apply eval_perm
+  have h := lapWrites_perm.map (fun t : Nat × Nat × Int => (⟨if t.1 = 0 then i else j, if t.2.1 = 0 then i else j, t.2.2, c⟩ : SEntry))
+  simpa [edgeBlockS] using h
 
 /-! ## gradient (hat functions of a triangle, as 3-D vectors) -/
 
